@@ -5,6 +5,8 @@ import (
 	"fmt"
 	"math"
 	"math/rand"
+	"strings"
+	"sync"
 	"sync/atomic"
 	"time"
 
@@ -19,6 +21,7 @@ import (
 	"verif/adapt"
 	"verif/fw"
 	"verif/gen"
+	"verif/ref"
 )
 
 // C15 — iterative deepening reports each depth faithfully and stops when it should.
@@ -352,6 +355,93 @@ func runC15(c *fw.Ctx, cs fw.Case) {
 			}
 			checkStream(c, rc, h, pvs, false, what)
 		}
+	case "uciclock":
+		// the limits a 'go' with clocks is granted, observed where the search arms its timer (hook timectrl.*):
+		// whatever the driver makes of the parameters, the hard limit must not exceed the mover's clock as sent
+		type obs struct{ white, black, hard int64 }
+		var omu sync.Mutex
+		var seen []obs
+		var cur obs
+		verifhook.SetObserver(func(name string, v int64) {
+			omu.Lock()
+			defer omu.Unlock()
+			switch name {
+			case "timectrl.white":
+				cur.white = v
+			case "timectrl.black":
+				cur.black = v
+			case "timectrl.hard":
+				cur.hard = v
+				seen = append(seen, cur)
+			}
+		})
+		defer verifhook.SetObserver(nil)
+		clocks := []int64{0, 0, 0, 1, 2, 7, 40, 999, 1000, 60000, 3600000, 86400000}
+		for i := 0; i < cs.N; i++ {
+			rc := &recipes[r.Intn(len(recipes))]
+			opts, _ := recipeOptions(r, rc)
+			h, tag := c15Root(r, i+cs.Idx)
+			cur0 := ref.NewGameFrom(h.Start, h.Moves).Cur
+			if len(cur0.LegalMoves()) == 0 {
+				continue
+			}
+			s := newUCISession(rc, opts, 0, false, 0, false)
+			s.send(positionCmd(h.Start, h.Moves, true))
+			for k := 0; k < 4; k++ {
+				w, b := clocks[r.Intn(len(clocks))], clocks[r.Intn(len(clocks))]
+				if r.Intn(3) == 0 {
+					w, b = int64(r.Intn(5000)), int64(r.Intn(5000))
+				}
+				// the two clocks in either order, optionally movestogo / increments / a depth limit alongside
+				parts := []string{fmt.Sprintf("wtime %d", w), fmt.Sprintf("btime %d", b)}
+				if r.Intn(2) == 0 {
+					parts[0], parts[1] = parts[1], parts[0]
+				}
+				if r.Intn(2) == 0 {
+					parts = append(parts, fmt.Sprintf("movestogo %d", []int{1, 1, 2, 5, 40, 1000}[r.Intn(6)]))
+				}
+				if r.Intn(3) == 0 {
+					parts = append(parts, "winc 1000 binc 1000")
+				}
+				if r.Intn(4) == 0 {
+					parts = append([]string{"depth 1"}, parts...)
+				}
+				cmd := "go " + strings.Join(parts, " ")
+				omu.Lock()
+				n0 := len(seen)
+				omu.Unlock()
+				mark := s.send(cmd)
+				s.send("stop")
+				_, _, answered := s.waitLine(mark, isBestmove, uciWatchdog)
+				_, synced := s.sync()
+				what := fmt.Sprintf("engine %s options %v, %s (%s), %q: %s", rc.name, opts, histDesc(h), tag, cmd, s.transcript(10))
+				if !answered || !synced {
+					c.Violate("time:uci-unanswered", "no bestmove / readyok: %s", what)
+					break
+				}
+				omu.Lock()
+				got := append([]obs(nil), seen[n0:]...)
+				omu.Unlock()
+				c.Eval(1)
+				c.Count("uci_clock_gos", 1)
+				if w == 0 || b == 0 {
+					c.Count("uci_clock_zero", 1)
+				}
+				c.Distinct(fmt.Sprint(rc.name, cur0.White, cmd))
+				if len(got) != 1 {
+					c.Violate("time:uci-limits-observed", "the search armed its time control %d times for one go: %s", len(got), what)
+					continue
+				}
+				left := w
+				if !cur0.White {
+					left = b
+				}
+				if hard := time.Duration(got[0].hard); hard < 0 || hard > time.Duration(left)*time.Millisecond {
+					c.Violate("time:uci-hard-exceeds-clock", "hard limit %v granted with %d ms left on the mover's clock (search was handed white %v black %v): %s", hard, left, time.Duration(got[0].white), time.Duration(got[0].black), what)
+				}
+			}
+			s.shutdown(true)
+		}
 	case "engine-default":
 		for i := 0; i < cs.N; i++ {
 			rc := &recipes[r.Intn(len(recipes))]
@@ -438,7 +528,7 @@ func init() {
 		Level:       "exploration",
 		Race:        true,
 		Technique:   "runtime trace checking of the PV stream against direct fixed-depth searches; gate evaluator that parks the search goroutine inside depth 1 while Halt is called; hook-point delays between store/publish of an iteration; enumerated time-control parameters; all under the race detector",
-		Rule:        "streams: four engine recipes x generated roots x depth limits (with and without a shared table): depths strictly increasing, each reported iteration equals a direct search (score; PV and nodes without table), end exactly at the limit or at the first forced mate within depth, Halt after the end returns the last iteration; halts: unlimited analysis halted after k reported iterations with random delays injected at iter.done/iter.stored/iter.sent/iter.halt.*: Halt returns a completed iteration >= every one reported before, never ended by itself; gate: search parked inside the j-th evaluation of depth 1 while Halt is called: Halt must not return before the gate opens (30 ms grace; correct code cannot return, so no false alarm) and then returns completed depth >= 1; limits: all combinations of 13 clock values x 21 moves-to-go values x 2 colours plus random ones: 0 <= soft <= hard <= remaining, no panic; clock: 0-2 ms clocks still complete depth 1; engine default depth; distinct = distinct (recipe, history, parameters)",
+		Rule:        "streams: four engine recipes x generated roots x depth limits (with and without a shared table): depths strictly increasing, each reported iteration equals a direct search (score; PV and nodes without table), end exactly at the limit or at the first forced mate within depth, Halt after the end returns the last iteration; halts: unlimited analysis halted after k reported iterations with random delays injected at iter.done/iter.stored/iter.sent/iter.halt.*: Halt returns a completed iteration >= every one reported before, never ended by itself; gate: search parked inside the j-th evaluation of depth 1 while Halt is called: Halt must not return before the gate opens (30 ms grace; correct code cannot return, so no false alarm) and then returns completed depth >= 1; limits: all combinations of 13 clock values x 21 moves-to-go values x 2 colours plus random ones: 0 <= soft <= hard <= remaining, no panic; clock: 0-2 ms clocks still complete depth 1; uciclock: UCI go lines with clocks (exact zeros, either order, movestogo, increments) on all four engines: the hard limit the search arms (observed at hook timectrl.hard) is within [0, mover's clock as sent]; engine default depth; distinct = distinct (recipe, history, parameters)",
 		Assumptions: []string{"gaps in the PV stream are legal: the one-slot channel deliberately drops an unread iteration", "clocks are non-negative (the quantifier of the property)"},
 		Timeout:     minutes(15, 120),
 		Cases: func(tier string, seed int64) []fw.Case {
@@ -448,10 +538,11 @@ func init() {
 			l = mkCases(l, "gate", 12, seed, pick(tier, 8, 250))
 			l = mkCases(l, "clock", 6, seed, pick(tier, 8, 300))
 			l = mkCases(l, "engine-default", 6, seed, pick(tier, 6, 200))
+			l = mkCases(l, "uciclock", 6, seed, pick(tier, 8, 200))
 			return l
 		},
 		Floors: func(string) map[string]int64 {
-			return map[string]int64{"limit_checks": 10000, "streams": 100, "iterations_compared": 500, "ended_by_mate": 3, "halts_after_k": 60, "gated_halts": 50, "clock_runs": 30, "engine_default_runs": 20, "explicit_no_limit_runs": 10}
+			return map[string]int64{"limit_checks": 10000, "streams": 100, "iterations_compared": 500, "ended_by_mate": 3, "halts_after_k": 60, "gated_halts": 50, "clock_runs": 30, "engine_default_runs": 20, "explicit_no_limit_runs": 10, "uci_clock_gos": 100, "uci_clock_zero": 20}
 		},
 		Run: runC15,
 	})
